@@ -509,6 +509,8 @@ func main() {
 			return true
 		})
 		seqs["Spec.Step"] = callSeq(fd, map[string]bool{"Exec": true, "consider": true, "AddEvents": true, "Copy": true})
+		// the allocation and write sites of the ownership model (Sheens/Own.lean stepH), in source order
+		seqs["Spec.Step.ownership"] = callSeq(fd, map[string]bool{"Exec": true, "consider": true, "Copy": true, "Extend": true, "Extendm": true, "NewBindings": true})
 	}
 	if fd := sf["Spec.Walk"]; fd != nil {
 		ast.Inspect(fd.Body, func(n ast.Node) bool {
